@@ -268,7 +268,8 @@ func judgeSpacing(c SpaceCase) *eng.Fail {
 			}
 			b = append(b, edgeJoiners[gaps[k]]...)
 			variants++
-			sig, lb, bad := tokSig(ref.Lex(b))
+			vtoks := ref.Lex(b)
+			sig, lb, bad := tokSig(vtoks)
 			if bad || sig != baseSig {
 				return // glued into different tokens: no constraint
 			}
@@ -277,13 +278,23 @@ func judgeSpacing(c SpaceCase) *eng.Fail {
 				fail = f
 				return
 			}
-			if out == baseOut {
+			if out == baseOut && !strings.Contains(lb, "1") {
 				return
 			}
-			if strings.Contains(lb, "1") && baseOut != "reject" && out == "reject" {
-				return // a line break before . !. ( may turn acceptance into rejection
+			if !strings.Contains(lb, "1") {
+				fail = eng.F("C14/spacing-changes-parse", "same tokens, different parse:\n  %q -> %s\n  %q -> %s", base, baseOut, b, out)
+				return
 			}
-			fail = eng.F("C14/spacing-changes-parse", "same tokens, different parse:\n  %q -> %s\n  %q -> %s", base, baseOut, b, out)
+			// a line break precedes a . !. or ( : the same-line rule decides; the reference parser
+			// (which applies it to member access and calls only) gives the expected outcome
+			rt, v := ref.ParseToks(vtoks)
+			want := "reject"
+			if v == ref.Accept {
+				want = rt.String()
+			}
+			if v != ref.Unspecified && out != want {
+				fail = eng.F("C14/linebreak-rule", "%q parses as %s; with the line break(s) in %q it must be %s, got %s", base, baseOut, b, want, out)
+			}
 			return
 		}
 		n := len(spaceJoiners)
